@@ -12,7 +12,7 @@ ASSUMPTIONS = ["hashlib (OpenSSL) is the reference for the primitives; RIPEMD-16
 NSHARDS = {"quick": 16, "thorough": 32}
 BUDGET_S = {"quick": 200, "thorough": 1500}
 MIN_HITS = {
-    'quick': {"hash": 1800, "hmac": 1000, "pbkdf2": 60, "chunks": 1500, "mnemonic": 3, "reuse": 60},
+    'quick': {"hash": 903, "hmac": 675, "pbkdf2": 147, "chunks": 5511, "mnemonic": 2, "reuse": 42},
     'thorough': {"hash": 7203, "hmac": 5281, "pbkdf2": 237, "chunks": 79080, "mnemonic": 7},
 }
 FN = ["sha1", "sha256", "sha256d", "sha512", "ripemd160", "hash160"]
